@@ -123,26 +123,34 @@ pub fn check(path: &str, via: Via) -> Option<(String, String)> {
         Via::Roller => {
             // pattern "<path>.{}" — the active file lives elsewhere
             let pattern_rel = format!("{}.{{}}", path);
-            let want_rel = expand_ref(&pattern_rel.replace("{}", "0"));
+            let want0 = expand_ref(&pattern_rel.replace("{}", "0"));
+            let want1 = expand_ref(&pattern_rel.replace("{}", "1"));
             let active = sb.path("active.log");
-            std::fs::write(&active, b"data").unwrap();
-            let r = catch_panic(|| {
+            let r = catch_panic(|| -> Result<(), String> {
                 let roller = FixedWindowRoller::builder().build(&format!("{}/{}", sb.dir.display(), pattern_rel), 2).map_err(|e| e.to_string())?;
+                // two rolls: the second one shifts the first archive, so both names go through the expansion
+                std::fs::write(&active, b"first").unwrap();
+                roller.roll(&active).map_err(|e| e.to_string())?;
+                std::fs::write(&active, b"second").unwrap();
                 roller.roll(&active).map_err(|e| e.to_string())
             });
             let r = match r {
                 Err(p) => return Some((format!("panic:Roller:{}", panic_site(&p)), format!("pattern {:?}: {}", pattern_rel, p))),
                 Ok(r) => r,
             };
-            if !usable_rel_path(&want_rel) || want_rel == "active.log" {
+            if !usable_rel_path(&want0) || !usable_rel_path(&want1) || want0 == "active.log" || want1 == "active.log" || want0 == want1 || want0.starts_with(&format!("{}/", want1)) || want1.starts_with(&format!("{}/", want0)) {
                 return None;
             }
-            let got = files_of(&sb);
+            let snap = snapshot(&sb.dir);
+            let got: std::collections::BTreeMap<String, Vec<u8>> = snap.into_iter().filter_map(|(k, e)| match e { Entry::File(b) => Some((k, b)), _ => None }).collect();
+            let mut want = std::collections::BTreeMap::new();
+            want.insert(want0.clone(), b"second".to_vec());
+            want.insert(want1.clone(), b"first".to_vec());
             match r {
-                Err(e) => Some(("Roller:roll-failed".into(), format!("pattern {:?} should archive to {:?} but roll failed: {}", pattern_rel, want_rel, e))),
+                Err(e) => Some(("Roller:roll-failed".into(), format!("pattern {:?} should archive to {:?} and {:?} but roll failed: {}", pattern_rel, want0, want1, e))),
                 Ok(()) => {
-                    if got != vec![want_rel.clone()] {
-                        Some(("Roller:wrong-location".into(), format!("pattern {:?}: files {:?}, expected exactly {:?}", pattern_rel, got, want_rel)))
+                    if got != want {
+                        Some(("Roller:wrong-location".into(), format!("pattern {:?}: files {:?}, expected exactly {:?}", pattern_rel, got.iter().map(|(k, v)| (k.clone(), String::from_utf8_lossy(v).into_owned())).collect::<Vec<_>>(), want.keys().collect::<Vec<_>>())))
                     } else {
                         None
                     }
